@@ -82,6 +82,9 @@ def commit_last(src, header_re, dest, what):
     """destination `dest` is written (assignment to it or to one of its members) only after the last early exit"""
     body, ln = func(src, header_re, what)
     writes = [m.start() for m in re.finditer(r'(?<![\w.])' + dest + r'\s*(?:\.\s*\w+\s*)?=(?!=)', body)]
+    # setters called on the destination, and assignments through a cast of it, are writes too
+    writes += [m.start() for m in re.finditer(r'(?<![\w.])' + dest + r'\s*\.\s*set\w*\s*\(', body)]
+    writes += [m.start() for m in re.finditer(r'_cast\s*<[^;]*>\s*\(\s*' + dest + r'\s*\)\s*=(?!=)', body)]
     exits = [m.start() for m in re.finditer(r'\breturn\s+is\s*;|\bgoto\s+failure\s*;', body)]
     if not writes:
         raise X.ExtractError(what + ': no assignment to the destination found')
